@@ -270,7 +270,7 @@ class EdgeIdsUnique(Lemma):
     props = ('C20',)
     doc = 'distinct edges get distinct ids source + "->" + target (for arbitrary node-id strings)'
 
-    def obligations(self, st):
+    def obligations(self, it):
         s1, t1, s2, t2 = z3.Strings('s1 t1 s2 t2')
         return [('distinct-edges-have-distinct-ids', z3.Implies(
             z3.Or(s1 != s2, t1 != t2), z3.Concat(s1, S('->'), t1) != z3.Concat(s2, S('->'), t2)))]
